@@ -485,3 +485,14 @@ def run(ctx):
     # is [curr_t, curr_t + step_size] clipped to ts[-1] -- never stretched beyond the controller's step (exact models)
     ctx.guard(ik.rule_last_steps, "R14.6", True)
     ctx.guard(r14_7)
+
+
+_run_before_r13_1 = run
+
+
+def run(ctx):
+    _run_before_r13_1(ctx)
+    # every integrate call starts from the documented initial controller state: nothing kept on the solver from an earlier call
+    # (the adjoint's backward pass calls integrate once per output interval on one solver; rule of C13)
+    from . import c13
+    ctx.guard(c13.r13_1)
